@@ -27,6 +27,8 @@ struct T5 { u64 x; u8 a<>; u8 b; };
 struct WideCnt { u64 n; u32 x<@n>; u8 t; };
 struct WideCntS { i64 n; OptSize x<@n>; };
 struct WideCnt16 { u8 a; u64 n; u16 x<@n>; };
+struct EnArr { En a[2]; En b<>; En c<3>; u16 t; };
+struct EnArrG { u8 k; En g<...>; };
 '''
 
 
